@@ -422,6 +422,90 @@ theorem invariance_all_factories (hs : o.Strict) {E₁ E₂ : List (Edge κ)} (h
     · show Except.ok m₁.root = Except.ok m₂.root
       rw [hr₁, hr₂, hroot]
 
+/-- **The structural clauses for ALL THREE factories**: on the property's domain every factory succeeds with the node
+set "endpoints, plus `owl:Thing` exactly when several terms are parentless", each node once; the root is the single
+parentless term or `owl:Thing`; the root has no parents and every other node has the root among its ancestors and is
+among the root's descendants. -/
+theorem structure_all_factories (hs : o.Strict) (hne : E ≠ []) (howl : owl ∉ endpoints E)
+    (hacyc : ∀ x, ¬ TransGen (fun a b => (a, b) ∈ E) x x) (f : Factory) :
+    ∃ G root, GM.build o owl f E = .ok G ∧ G.root = .ok root ∧ root ∈ G.nodes ∧ G.nodes.Nodup ∧
+      (∀ x, x ∈ G.nodes ↔ x ∈ endpoints E ∨ (x = owl ∧ 2 ≤ (candidates (dedup E)).length)) ∧
+      (candidates (dedup E) = [root] ∨ (2 ≤ (candidates (dedup E)).length ∧ root = owl)) ∧
+      G.query o .parents (some root) false = .ok [] ∧
+      ∀ v ∈ G.nodes, v ≠ root →
+        (∃ r, G.query o .ancestors (some v) false = .ok r ∧ root ∈ r) ∧
+        (∃ r, G.query o .descendants (some root) false = .ok r ∧ v ∈ r) := by
+  obtain ⟨root, E', g, h⟩ := factory_total o hs owl E hne howl hacyc
+  obtain ⟨hac, _⟩ := acyclic_rooted h.hroot howl hacyc
+  obtain ⟨_, hnd, hnodes⟩ := nodes_spec h
+  obtain ⟨hcand, hroot, hrootmem, hnopar⟩ := root_spec h howl
+  have hcand' : candidates (dedup E) = [root] ∨ (2 ≤ (candidates (dedup E)).length ∧ root = owl) := by
+    rcases hcand with h1 | ⟨h1, h2, _⟩
+    · exact Or.inl h1
+    · exact Or.inr ⟨h1, h2⟩
+  obtain ⟨gi, gb, hgi, hgb, hni, hnb, hri, hrb, _, hagree⟩ := Hpv.Props.C03.factories_agree h hac
+  -- what the indexed graph says about root and the others
+  have hix : ∀ v ∈ g.nodes, v ≠ root →
+      (∃ r, g.query o .ancestors (some v) false = .ok r ∧ root ∈ r) ∧
+      (∃ r, g.query o .descendants (some root) false = .ok r ∧ v ∈ r) := by
+    intro v hv hvr
+    obtain ⟨hreach, hanc⟩ := root_top h hac v hv hvr
+    refine ⟨hanc, ?_⟩
+    obtain ⟨r, hq, _, hm⟩ := descendants_closure h root hrootmem
+    refine ⟨r, hq, (hm v).mpr ?_⟩
+    -- an upward path from v to root is a downward path from root to v
+    have flip : ∀ a b, TransGen (IsA E') a b → TransGen (fun a b => IsA E' b a) b a := by
+      intro a b hab
+      induction hab with
+      | single hh => exact TransGen.single hh
+      | tail _ hh ih => exact TransGen.trans (TransGen.single hh) ih
+    exact flip v root hreach
+  -- transfer to a matrix graph that agrees with the indexed one
+  have transfer : ∀ (mg : MGraph κ), mg.nodes = g.nodes → mg.root = root →
+      (∀ (q : Q) (v : κ), v ∈ g.nodes → ∃ r rm, g.query o q (some v) false = .ok r ∧ mg.query o q (some v) false = .ok rm ∧
+        rm.Nodup ∧ ∀ x, x ∈ r ↔ x ∈ rm) →
+      G.root (.mx mg) = .ok root ∧ root ∈ G.nodes (.mx mg) ∧ (G.nodes (.mx mg)).Nodup ∧
+      (∀ x, x ∈ G.nodes (.mx mg) ↔ x ∈ endpoints E ∨ (x = owl ∧ 2 ≤ (candidates (dedup E)).length)) ∧
+      G.query o (.mx mg) .parents (some root) false = .ok [] ∧
+      ∀ v ∈ G.nodes (.mx mg), v ≠ root →
+        (∃ r, G.query o (.mx mg) .ancestors (some v) false = .ok r ∧ root ∈ r) ∧
+        (∃ r, G.query o (.mx mg) .descendants (some root) false = .ok r ∧ v ∈ r) := by
+    intro mg hn hr hag
+    have hnn : G.nodes (.mx mg) = g.nodes := hn
+    refine ⟨by show Except.ok mg.root = Except.ok root; rw [hr], by rw [hnn]; exact hrootmem, by rw [hnn]; exact hnd,
+      by intro x; rw [hnn]; exact hnodes x, ?_, ?_⟩
+    · obtain ⟨r, rm, q1, q2, _, hm⟩ := hag .parents root hrootmem
+      rw [hnopar] at q1; injection q1 with q1; subst q1
+      show mg.query o .parents (some root) false = .ok []
+      rw [q2]
+      congr 1
+      apply List.eq_nil_iff_forall_not_mem.mpr
+      intro x hx
+      exact absurd ((hm x).mpr hx) (by simp)
+    · intro v hv hvr
+      rw [hnn] at hv
+      obtain ⟨⟨ra, hqa, hra⟩, ⟨rd, hqd, hrd⟩⟩ := hix v hv hvr
+      obtain ⟨r1, rm1, q1, q2, _, hm1⟩ := hag .ancestors v hv
+      obtain ⟨r2, rm2, q3, q4, _, hm2⟩ := hag .descendants root hrootmem
+      rw [hqa] at q1; injection q1 with q1; subst q1
+      rw [hqd] at q3; injection q3 with q3; subst q3
+      exact ⟨⟨rm1, q2, (hm1 root).mp hra⟩, ⟨rm2, q4, (hm2 v).mp hrd⟩⟩
+  cases f with
+  | indexed =>
+    exact ⟨.ix g, root, by simp [GM.build, h.hg, Except.map], hroot, hrootmem, hnd, hnodes, hcand', hnopar, hix⟩
+  | incremental =>
+    obtain ⟨t1, t2, t3, t4, t5, t6⟩ := transfer gi hni hri (by
+      intro q v hv
+      obtain ⟨r, ri, rb, q1, q2, _, _, n2, _, hm⟩ := hagree q v hv
+      exact ⟨r, ri, q1, q2, n2, fun x => (hm x).1⟩)
+    exact ⟨.mx gi, root, by simp [GM.build, hgi, Except.map], t1, t2, t3, t4, hcand', t5, t6⟩
+  | builder =>
+    obtain ⟨t1, t2, t3, t4, t5, t6⟩ := transfer gb hnb hrb (by
+      intro q v hv
+      obtain ⟨r, ri, rb, q1, _, q3, _, _, n3, hm⟩ := hagree q v hv
+      exact ⟨r, rb, q1, q3, n3, fun x => (hm x).2⟩)
+    exact ⟨.mx gb, root, by simp [GM.build, hgb, Except.map], t1, t2, t3, t4, hcand', t5, t6⟩
+
 -- non-vacuity: the two-root forest of C01.Example meets every hypothesis used above
 open Hpv.Props.C01.Example in
 example : (0 : Nat) ∉ endpoints forest ∧ (∀ x, ¬ TransGen (fun a b => (a, b) ∈ forest) x x) ∧
